@@ -325,10 +325,73 @@ func c07History(r *run.Run) {
 	}
 }
 
+// history independence across lookups that differ only in data kept outside the flag word: two context
+// rules with different first glyphs run two copies of one child lookup under ALL pairs of child flags
+// (incl. equal flag words with different mark filtering sets), so which child is used first on a
+// Context depends on the text of the earlier calls.
+func c07HistoryFlags(r *run.Run) {
+	mk := func(s string) []glyph.ID {
+		var g []glyph.ID
+		for _, ch := range s {
+			g = append(g, map[rune]glyph.ID{'A': gen.GA, 'B': gen.GB, 'M': gen.GM, 'N': gen.GN, 'L': gen.GL}[ch])
+		}
+		return g
+	}
+	var inputs [][]glyph.ID
+	for _, s := range []string{"", "AA", "AMA", "ANA", "AMNA", "BAA", "BAMA", "BANA", "BANMA", "AMABAMA", "BAMAAMA", "M", "ALA", "BALA"} {
+		inputs = append(inputs, mk(s))
+	}
+	r.Explore(explore.Config{Name: "C07.history-flags", Deadline: r.PartDeadline(0.5)},
+		fmt.Sprintf("lists [context 'A A' -> child a at 0, context 'B A A' -> child b at 1, child a, child b] where a and b are copies of one lookup (GSUB: ligature / single substitution; GPOS: single / pair adjustment) with ALL pairs of flags from the 11-entry flag menu, parents ignoring marks and ligatures; all histories of <= 2 Apply calls over %d inputs on one Context: every probe gives the same result as on a fresh Context", len(inputs)),
+		func(c *explore.Ctx) {
+			gpos := c.Bool("gpos")
+			menu, ctxType := gen.GsubSimple, uint16(5)
+			kids := []int{5, 1}
+			if gpos {
+				menu, ctxType = gen.GposSimple, 7
+				kids = []int{1, 2}
+			}
+			child := menu[kids[c.Choose(len(kids), "child")]]
+			fa := gen.Flags[c.Choose(len(gen.Flags), "flags of child a")]
+			fb := gen.Flags[c.Choose(len(gen.Flags), "flags of child b")]
+			pf := gen.FlagSet{Flags: gtab.IgnoreMarks | gtab.IgnoreLigatures, Name: "-marks-ligs"}
+			ll := gtab.LookupList{
+				gen.MakeLookup(ctxType, pf, []gtab.Subtable{gen.Context(2, gen.Pattern{Input: []glyph.ID{gen.GA, gen.GA}}, []gtab.SeqLookup{{SequenceIndex: 0, LookupListIndex: 2}})}),
+				gen.MakeLookup(ctxType, pf, []gtab.Subtable{gen.Context(2, gen.Pattern{Input: []glyph.ID{gen.GB, gen.GA, gen.GA}}, []gtab.SeqLookup{{SequenceIndex: 1, LookupListIndex: 3}})}),
+				gen.MakeLookup(child.Type, fa, child.Sub()),
+				gen.MakeLookup(child.Type, fb, child.Sub()),
+			}
+			gd, _ := gen.Gdef(0)
+			applied := []gtab.LookupIndex{0, 1}
+			desc := []string{"0: context fmt3 -marks-ligs [AA] 2@0", "1: context fmt3 -marks-ligs [BAA] 3@1", "2: " + child.Name + " " + fa.Name, "3: " + child.Name + " " + fb.Name}
+			var hist []string
+			c.Sample(func() any { return map[string]any{"lists": desc, "history": hist} })
+			ctx := gtab.NewContext(ll, gd, applied)
+			n := c.Choose(3, "history length")
+			for i := 0; i < n; i++ {
+				in := inputs[c.Choose(len(inputs), "call")]
+				hist = append(hist, gen.SeqName(in))
+				ctx.Apply(seqWithText(in))
+			}
+			if n > 0 {
+				c.Nontrivial()
+			}
+			for _, probe := range inputs {
+				got := fmtInfos(ctx.Apply(seqWithText(probe)))
+				want := fmtInfos(gtab.NewContext(ll, gd, applied).Apply(seqWithText(probe)))
+				if got != want {
+					c.Fail("C07.history", "child flags "+fa.Name+" / "+fb.Name, "after Apply history %v on one Context, Apply(%s) gives [%s], a fresh Context gives [%s]; lookups %v", hist, gen.SeqName(probe), got, want, desc)
+					return
+				}
+			}
+			c.Outcome(fmt.Sprint(desc), hist)
+		})
+}
+
 // Layouter: Layout(s) does not depend on earlier Layout calls.
 func c07Layouter(r *run.Run) {
 	strs := []string{"", "AB", "fBi", "AfiB", "xB", "fifi", "AfBBiB"}
-	r.Explore(explore.Config{Name: "C07.layouter"},
+	r.Explore(explore.Config{Name: "C07.layouter", Deadline: r.PartDeadline(0.5)},
 		"sfnt.Layouter: all histories of <= 3 Layout calls over 6 strings on generator fonts with GSUB/GPOS/GDEF and on a font with the synthetic ligature table: the next Layout equals that of a fresh Layouter, text conserved",
 		func(c *explore.Ctx) {
 			f, spec := gen.Font(c, gen.FontOpts{Compact: true, NoMeta: true, GlyphCounts: []int{6}, Kinds: []int{gen.KindGlyf, gen.KindCFF}})
@@ -380,7 +443,7 @@ func c07Layouter(r *run.Run) {
 // well-formed tables that gtab.Read accepts is applied.
 func c07Bytes(r *run.Run) {
 	alphabet := []glyph.ID{gen.GA, gen.GB, gen.GM, 0, 0xFFFF}
-	r.Explore(explore.Config{Name: "C07.bytes", Bound: 1, Deadline: r.PartDeadline(0.9)},
+	r.Explore(explore.Config{Name: "C07.bytes", Bound: 1, Deadline: r.PartDeadline(0.4)},
 		"GSUB/GPOS tables from bytes: the default generator lists and their 1-deviation neighbours are encoded; every 16-bit field is overwritten with each of {0,1,2,len-1,len,0x7FFF,0xFFFF}; whatever gtab.Read accepts is applied to all sequences of length <= 3: no panic, terminates, text conserved",
 		func(c *explore.Ctx) {
 			gpos := c.Bool("gpos")
@@ -455,10 +518,12 @@ func init() {
 			"map-order independence: every map iteration order of the seam's alphabet in C07.map-order-* (generator lists, deviation bound 1, sequences of length <= 3)",
 			"positioning data the library declares unimplemented (device offsets, vertical advance) is excluded",
 		}
+		// cheap parts first; the history search is by far the largest and takes what remains
 		c07Structures(r)
-		c07History(r)
-		c07Layouter(r)
 		c07Bytes(r)
 		c07MapOrder(r)
+		c07HistoryFlags(r)
+		c07Layouter(r)
+		c07History(r)
 	})
 }
